@@ -300,10 +300,10 @@ def _dom5(chk):
     from sa.helpers import exact_selection
     for n in brk:
         exact_selection(chk, "DOM-5", "a boolean event is aborted whenever a handler returned False (no further condition)", f, cfg, n, head,
-                        {("ev_type == 'boolean'", True), ("%s is False" % rv, True)}, text="break exactly on boolean False")
+                        {("ev_type == 'boolean'", True), ("%s is False" % rv, True)}, text="break exactly on boolean False", every=False)
     for n, c in ups:
         exact_selection(chk, "DOM-5", "a relay handler's dict result is merged whenever it is a dict (no further condition)", f, cfg, n, head,
-                        {("ev_type == 'relay'", True), ("isinstance(%s, dict)" % rv, True)}, text="relay update exactly on dict result")
+                        {("ev_type == 'relay'", True), ("isinstance(%s, dict)" % rv, True)}, text="relay update exactly on dict result", every=False)
     evr = [n for n in cfg.nodes_where(lambda n: n.kind == "stmt" and isinstance(n.ast, ast.Assign) and
                                       src(n.ast.targets[0]) == "kwargs['ev_result']")]
     for n in evr:
